@@ -184,7 +184,11 @@ func c17Cover(st *engine.Step) []string {
 		c = append(c, "request:"+st.Obs.Req.Tag.Kind)
 		for _, m := range st.Post.Mails {
 			if k, _, ok := world.MailToken(m); ok {
-				c = append(c, "mail:"+k)
+				if m.Failed {
+					c = append(c, "mail-failed:"+k)
+				} else {
+					c = append(c, "mail:"+k)
+				}
 			}
 		}
 	}
@@ -255,9 +259,12 @@ func c17Scenarios(tier string) []engine.Scenario {
 					}, ""))
 				}
 			}
-			a = append(a, flows.A("register(B2,u3)", func(s *world.Stack, _ *world.World) world.Req {
+			regU3 := func(s *world.Stack, _ *world.World) world.Req {
 				return flows.Register(s, "B2", map[string]string{"email": U3, "password": P3, "confirm_password": P3})
-			}, U3))
+			}
+			a = append(a, flows.A("register(B2,u3)", regU3, U3))
+			// the same mail-sending requests with the mailer failing: the token was generated and stored, so it stays a secret
+			a = append(a, flows.AMailFault("register(B2,u3)", regU3, U3))
 			for _, owner := range []string{U3, U1} {
 				if sec := w.Truth.Newest("ctok", owner, false); sec != nil {
 					for _, c := range []cand{{"ctok:live", sec.Val}, {"ctok:live+trailing-char", sec.Val + "."}, {"ctok:live-truncated", sec.Val[:len(sec.Val)-3]}} {
@@ -270,6 +277,7 @@ func c17Scenarios(tier string) []engine.Scenario {
 				}
 			}
 			a = append(a, flows.A("recover-start(B2,u1)", func(s *world.Stack, _ *world.World) world.Req { return flows.RecoverStart(s, "B2", U1) }, U1))
+			a = append(a, flows.AMailFault("recover-start(B2,u1)", func(s *world.Stack, _ *world.World) world.Req { return flows.RecoverStart(s, "B2", U1) }, U1))
 			if sec := w.Truth.Newest("rtok", U1, false); sec != nil {
 				for _, c := range []cand{{"rtok:live", sec.Val}, {"rtok:live+trailing-char", sec.Val + "."}, {"rtok:live-truncated", sec.Val[:len(sec.Val)-3]}} {
 					a = append(a, flows.A(fmt.Sprintf("recover-end(B2,%s)", c.note), func(s *world.Stack, _ *world.World) world.Req {
@@ -281,6 +289,7 @@ func c17Scenarios(tier string) []engine.Scenario {
 			}
 			// 2FA enrolment for U1 (e-mail authorisation required)
 			a = append(a, simple("verify-start(B1,totp)", func(s *world.Stack) world.Req { return flows.VerifyStart(s, b, "totp") }))
+			a = append(a, flows.AMailFault("verify-start(B1,totp)", func(s *world.Stack, _ *world.World) world.Req { return flows.VerifyStart(s, b, "totp") }, ""))
 			if sec := w.Truth.Newest("vtok", U1, false); sec != nil {
 				for _, c := range []cand{{"vtok:live", sec.Val}, {"vtok:live+trailing-char", sec.Val + "."}} {
 					a = append(a, flows.A(fmt.Sprintf("verify-end(B1,totp,%s)", c.note), func(s *world.Stack, _ *world.World) world.Req {
@@ -331,8 +340,8 @@ func init() {
 		ID: "C17", Level: "model_checking",
 		Rule:  "E1 over the union of the successful and failing steps of every flow (all modules, e-mail authorisation on, form and JSON) incl. near-miss inputs a user really produces (mailed token with a trailing character or truncated, wrong password with the right one as a prefix); after every transition every known plaintext is searched for in all stored fields, the remember table and the transition's log lines, token mails are checked against the owner's addresses, and every response body / location is searched for mailed tokens the request did not itself present; classes = request kinds, mail kinds and secret kinds in play",
 		Units: func(tier string) []engine.Unit { return e1Units(c17Scenarios(tier)) },
-		Need: []string{"known-secret:password", "known-secret:otp", "known-secret:rc", "known-secret:rm", "known-secret:rtok", "known-secret:ctok", "known-secret:vtok",
+		Need: []string{"mail-failed:rtok", "mail-failed:ctok", "mail-failed:vtok", "known-secret:password", "known-secret:otp", "known-secret:rc", "known-secret:rm", "known-secret:rtok", "known-secret:ctok", "known-secret:vtok",
 			"mail:rtok", "mail:ctok", "mail:vtok", "request:confirm", "request:recover_end", "request:otplogin"},
-		Assumptions: []string{"TOTP secrets and the session-held SMS / e-mail-verify values are outside the statement and are not scanned", "fault injection and malformed percent-encoding are not in this alphabet (DESIGN.md 7.11)", "responses are scanned for mailed tokens only (a token may appear only in the response to a request that presented it); passwords and codes in responses are out of scope by the statement", "the application injects one layout data map into every request context (CTXKeyData)"},
+		Assumptions: []string{"TOTP secrets and the session-held SMS / e-mail-verify values are outside the statement and are not scanned", "of the backends only the mailer is made to fail in this alphabet (register, recover start, 2FA e-mail verification with Mailer.Send returning an error); malformed percent-encoding is not in it (DESIGN.md 7.11)", "responses are scanned for mailed tokens only (a token may appear only in the response to a request that presented it); passwords and codes in responses are out of scope by the statement", "the application injects one layout data map into every request context (CTXKeyData)"},
 	})
 }
